@@ -123,7 +123,14 @@ Multi ==
                     Field(3, "inner", Ref("Inner"), FALSE, NoDef) >>],
      [name |-> "Nest", kind |-> "struct", items |-> <<>>, target |-> B("i32"),
       fields |-> << Field(1, "p", Ref("Pair"), FALSE, NoDef), Field(2, "u", Ref("Choice"), FALSE, NoDef),
-                    Field(3, "ps", ListOf(Ref("Pair")), FALSE, NoDef), Field(4, "m", MapOf(B("string"), Ref("Choice")), FALSE, NoDef) >>] >>
+                    Field(3, "ps", ListOf(Ref("Pair")), FALSE, NoDef), Field(4, "m", MapOf(B("string"), Ref("Choice")), FALSE, NoDef) >>],
+     \* recursive types: values may be nested deeper than any fixed bound
+     [name |-> "Tree", kind |-> "union", items |-> <<>>, target |-> B("i32"),
+      fields |-> << Field(1, "n", B("i64"), FALSE, NoDef), Field(2, "kids", ListOf(Ref("Tree")), FALSE, NoDef),
+                    Field(3, "byName", MapOf(B("string"), Ref("Tree")), FALSE, NoDef) >>],
+     [name |-> "Chain", kind |-> "struct", items |-> <<>>, target |-> B("i32"),
+      fields |-> << Field(1, "tail", Ref("Chain"), FALSE, NoDef), Field(2, "v", B("i32"), FALSE, NoDef),
+                    Field(3, "trees", SetOf(Ref("Tree")), FALSE, NoDef) >>] >>
 MultiSchema == Support \o Multi
 PairVals == { St(<< F("a", Str(<<120>>)) >>),
               St(<< F("a", Str(<<>>)), F("b", I(-1)), F("c", LV(<< St(<< F("x", I(3)) >>) >>)), F("g", I(1)) >>),
@@ -133,6 +140,15 @@ OopsVals == { St(<< F("code", I(404)) >>), St(<< F("message", Str(<<109>>)), F("
 NestVals == { St(<<>>) }
               \cup { St(<< F("p", p), F("u", u) >>) : p \in PairVals, u \in ChoiceVals }
               \cup { St(<< F("ps", LV(<< p, p >>)), F("m", MV(<< [k |-> Str(<<107>>), v |-> u] >>)) >>) : p \in PairVals, u \in ChoiceVals }
-MultiCases == { <<"Pair", v>> : v \in PairVals } \cup { <<"Choice", v>> : v \in ChoiceVals }
+TreeLeaf == St(<< F("n", L64(<<0,0,0,7>>)) >>)
+RECURSIVE TreeDeep(_), TreeMix(_), ChainDeep(_)
+TreeDeep(k) == IF k = 0 THEN TreeLeaf ELSE St(<< F("kids", LV(<< TreeDeep(k - 1) >>)) >>)                     \* 2k levels of struct / list
+TreeMix(k) == IF k = 0 THEN TreeLeaf
+              ELSE IF k % 2 = 0 THEN St(<< F("kids", LV(<< TreeMix(k - 1), TreeLeaf >>)) >>)
+              ELSE St(<< F("byName", MV(<< [k |-> Str(<<107>>), v |-> TreeMix(k - 1)] >>)) >>)
+ChainDeep(k) == IF k = 0 THEN St(<< F("v", I(1)) >>) ELSE St(<< F("tail", ChainDeep(k - 1)), F("v", I(k)) >>)
+TreeVals == { TreeLeaf, St(<< F("kids", LV(<<>>)) >>), TreeDeep(1), TreeDeep(33), TreeMix(5), TreeMix(34) }
+ChainVals == { St(<<>>), ChainDeep(1), ChainDeep(65), St(<< F("trees", SV(<< TreeDeep(33), TreeLeaf >>)) >>) }
+MultiCases == { <<"Pair", v>> : v \in PairVals } \cup { <<"Tree", v>> : v \in TreeVals } \cup { <<"Chain", v>> : v \in ChainVals } \cup { <<"Choice", v>> : v \in ChoiceVals }
               \cup { <<"Oops", v>> : v \in OopsVals } \cup { <<"Nest", v>> : v \in NestVals }
 =============================================================================
